@@ -1,10 +1,1087 @@
-//! Family `cli` — stub (replaced by the unit that owns this family).
+//! Family `cli` (C14): the shipped pipeline (CLI binary; playground entry point) against the library
+//! pipeline on separate arenas, runs in one process against runs alone, and histories on the real
+//! global scratch arenas against `Model/Scratch.lean`.
+//!
+//! Protocol (one request per line, one answer per line; see also `lean/NaijaVerif/Driver/Cli.lean`):
+//! ```text
+//! cli <file|eval|stdin> <p> <re> <rt> <hex src>  -> code=<n> | code=panic
+//!        runs the real `naija` binary (`--naija <path>`) on the source in that mode and answers its exit
+//!        status.  <p> <re> <rt> are the library pipeline's facts (parser diagnostics, error-level checker
+//!        diagnostics, error-level runtime diagnostics; `x x x` = the library pipeline panicked), written
+//!        by `gen` and re-computed here.  Oracle: stdout of the binary == what the library pipeline on three
+//!        fresh, separate arenas computes (rendered diagnostics, then the `shout` lines, then the runtime
+//!        diagnostics), exit status 0 iff no error diagnostic, stderr empty.
+//! seq <hex1>|<hex2>|…                            -> n=<2k> end=<o0>:<o1>,…
+//!        runs the in-process replica of the playground entry point on the sequence, twice, in THIS process
+//!        and answers the offsets of the two scratch arenas after each run.  Oracle: every run returns what
+//!        the same program returns alone in a fresh process (`nvh cli alone <hex>`).
+//! exit <p> <re> <rt>                             -> (driver only)
+//! proto <name>                                   -> safe | unsafe   (observed: `cli`/`wasm` = no debug
+//!        borrow assertion fired in any run so far of this process / its children)
+//! H | i | o | b <v> <none|w> | a <v> <bytes> <align> | m <v> | r <v> <k> | d <v>
+//!        a history on the real `S_SCRATCH` through `arena::init` / `scratch_arena` / `ScratchArena`
+//! ```
+//! Debug profile only (the borrow-order assertions of `debug.rs` are part of what is compared).
 
-pub fn main(_args: &[String]) -> i32 {
-    eprintln!("family cli: not built yet");
-    2
+use std::alloc::{Allocator, Layout};
+use std::collections::HashMap;
+use std::io::Write;
+use std::os::fd::FromRawFd;
+use std::process::{Command, Stdio};
+use std::sync::Mutex;
+use std::sync::atomic::{AtomicUsize, Ordering};
+
+use naijascript::arena::{self, Arena, ScratchArena, scratch_arena};
+use naijascript::helpers::MEBI;
+use naijascript::resolver::Resolver;
+use naijascript::runtime::Runtime;
+use naijascript::syntax::parser::Parser;
+use naijascript::syntax::scanner::Lexer;
+
+use crate::util::{self, Rng};
+
+pub fn main(args: &[String]) -> i32 {
+    match args.first().map(String::as_str) {
+        Some("gen") => generate(&args[1..]),
+        Some("run") => run(&args[1..]),
+        Some("alone") => alone(&args[1..]),
+        Some("seqrun") => seqrun(&args[1..]),
+        Some("expect") => expect_cmd(&args[1..]),
+        _ => {
+            eprintln!(
+                "usage: nvh cli gen --seed S --n N --seqs K --hists H | nvh cli run --naija <path> < requests | \
+                 nvh cli alone <hex> | nvh cli expect <mode> <hex>"
+            );
+            2
+        }
+    }
 }
 
-/// Constants/tables of the compiled crate this family wants in `nvh dump-tables`
-/// (JSON key, JSON value text).
 pub fn dump_tables(_out: &mut Vec<(String, String)>) {}
+
+// ------------------------------------------------------------------------------------------------
+// The library pipeline on three fresh, separate arenas (the reference configuration)
+
+const LIB_ARENA_CAP: usize = 256 * MEBI;
+
+pub struct Expected {
+    pub stdout: Vec<u8>,
+    pub code: i32,
+    pub p: usize,
+    pub re: usize,
+    pub rt: usize,
+    pub class: &'static str,
+}
+
+/// What `cmd.rs::run_source` must print and return according to the property: every diagnostic list is
+/// printed through `Diagnostics::report` (which renders into a buffer and `print!`s it, errors included),
+/// `shout` prints `Display` of the value and a newline, exit status 0 iff no error diagnostic.
+pub fn library_run(src: &str, filename: &str) -> Expected {
+    let arena = Arena::new(LIB_ARENA_CAP).unwrap();
+    let res_arena = Arena::new(LIB_ARENA_CAP).unwrap();
+    let frame = Arena::new(LIB_ARENA_CAP).unwrap();
+    let mut out: Vec<u8> = Vec::new();
+
+    let lexer = Lexer::new(src, &arena);
+    let mut parser = Parser::new(lexer, &arena);
+    let (root, err) = parser.parse_program();
+    let p = err.diagnostics.len();
+    if p != 0 {
+        out.extend_from_slice(err.render_ansi(src, filename).as_bytes());
+        return Expected { stdout: out, code: 1, p, re: 0, rt: 0, class: "parse" };
+    }
+    let mut resolver = Resolver::with_facts_arena(&res_arena, &arena);
+    resolver.resolve(root);
+    let re = resolver.errors.diagnostics.iter().filter(|d| d.severity == naijascript::diagnostics::Severity::Error).count();
+    if !resolver.errors.diagnostics.is_empty() {
+        out.extend_from_slice(resolver.errors.render_ansi(src, filename).as_bytes());
+    }
+    if re != 0 {
+        return Expected { stdout: out, code: 1, p, re, rt: 0, class: "static" };
+    }
+    let (facts, plan) = resolver.into_artifacts();
+    let mut runtime = Runtime::new(&arena, Some(&frame));
+    let (rt, rendered) = {
+        let errs = runtime.run_with_analysis(root, &facts, plan.as_ref());
+        let rt = errs.diagnostics.iter().filter(|d| d.severity == naijascript::diagnostics::Severity::Error).count();
+        let rendered =
+            if errs.diagnostics.is_empty() { Vec::new() } else { errs.render_ansi(src, filename).as_bytes().to_vec() };
+        (rt, rendered)
+    };
+    for v in runtime.output.iter() {
+        out.extend_from_slice(format!("{v}\n").as_bytes());
+    }
+    out.extend_from_slice(&rendered);
+    let code = if rt != 0 { 1 } else { 0 };
+    Expected { stdout: out, code, p, re, rt, class: if rt != 0 { "rt" } else { "ok" } }
+}
+
+fn facts_of(src: &str) -> Option<(usize, usize, usize, &'static str)> {
+    util::catch(|| {
+        let e = library_run(src, "<facts>");
+        (e.p, e.re, e.rt, e.class)
+    })
+    .ok()
+}
+
+// ------------------------------------------------------------------------------------------------
+// The playground entry point, replicated
+
+thread_local! {
+    static LAST_CLASS: std::cell::Cell<&'static str> = const { std::cell::Cell::new("?") };
+}
+
+fn note(class: &'static str) {
+    LAST_CLASS.with(|c| c.set(class));
+}
+
+/// `ansi_to_html::convert` is not linked into the harness; the replica returns the ANSI text.
+fn report_html(ansi: &str) -> String {
+    ansi.to_string()
+}
+
+/// In-process replica of `wasm/src/lib.rs::run_source` (lines 10-58 of the file as of the pinned
+/// tree: `arena::init(16 * MEBI)`, `scratch_arena(None)` for AST / facts / runtime data, a block with
+/// `scratch_arena(Some(&arena))` for the resolver and again for the frame arena, the same early returns
+/// and the same result string).  Differences: `#[wasm_bindgen]` is gone, `report_html` keeps the ANSI
+/// text, and `note(..)` records which exit was taken.  `extract/gen_cli.py` extracts the scratch-arena
+/// events of this function and of the original and refuses to generate `Gen/Protocol.lean` when they
+/// differ, so a change of shape in `wasm/src/lib.rs` must be mirrored here.
+pub fn playground_run_source(src: &str, filename: &str) -> String {
+    if let Err(err) = arena::init(16 * MEBI) {
+        return format!("Failed to initialize arena: {err}");
+    }
+    let arena = scratch_arena(None);
+
+    let lexer = Lexer::new(src, &arena);
+    let mut parser = Parser::new(lexer, &arena);
+    let (root, err) = parser.parse_program();
+    if !err.diagnostics.is_empty() {
+        note("parse");
+        return report_html(&err.render_ansi(src, filename));
+    }
+
+    // Resolver uses a separate scratch arena that is freed after resolution.
+    let mut non_err = String::with_capacity(src.len() / 2);
+    {
+        let res_arena = scratch_arena(Some(&arena));
+        let mut resolver = Resolver::with_facts_arena(&res_arena, &arena);
+        resolver.resolve(root);
+        if resolver.errors.has_errors() {
+            note("static");
+            return report_html(&resolver.errors.render_ansi(src, filename));
+        }
+        if !resolver.errors.diagnostics.is_empty() {
+            non_err.push_str(&report_html(&resolver.errors.render_ansi(src, filename)));
+        }
+        let (facts, optimization_plan) = resolver.into_artifacts();
+
+        // After resolver scope drops, scratch[1] is free for use as frame arena.
+        let frame = scratch_arena(Some(&arena));
+        let mut runtime = Runtime::new(&arena, Some(&frame));
+        let err = runtime.run_with_analysis(root, &facts, optimization_plan.as_ref());
+        if err.has_errors() {
+            note("rt");
+            return report_html(&err.render_ansi(src, filename));
+        }
+        if !err.diagnostics.is_empty() {
+            non_err.push_str(&report_html(&err.render_ansi(src, filename)));
+        }
+
+        let res = runtime.output.iter().map(ToString::to_string).collect::<Vec<_>>().join("\n");
+        note("ok");
+        if !non_err.is_empty() {
+            non_err.push_str(&res);
+            return non_err;
+        }
+        res
+    }
+}
+
+/// Offsets of `S_SCRATCH[0]` and `S_SCRATCH[1]`, read through fresh guards (dropping them resets each
+/// arena to the offset just read, i.e. changes nothing).
+fn probe_offsets() -> (usize, usize) {
+    let a = scratch_arena(None);
+    let o0 = a.offset();
+    let b = scratch_arena(Some(&a));
+    let o1 = b.offset();
+    drop(b);
+    drop(a);
+    (o0, o1)
+}
+
+/// One playground run with panics caught: (class, returned text).
+fn playground_once(src: &str) -> (String, String) {
+    note("?");
+    match util::catch(|| playground_run_source(src, "playground.ns")) {
+        Ok(s) => (LAST_CLASS.with(|c| c.get()).to_string(), s),
+        Err(msg) => ("panic".to_string(), msg),
+    }
+}
+
+fn digest(s: &[u8]) -> String {
+    // FNV-1a 64
+    let mut h: u64 = 0xcbf29ce484222325;
+    for b in s {
+        h ^= *b as u64;
+        h = h.wrapping_mul(0x100000001b3);
+    }
+    format!("{}:{h:016x}", s.len())
+}
+
+/// `nvh cli alone <hex>`: one playground run in a fresh process.
+fn alone(args: &[String]) -> i32 {
+    let Some(src) = args.first().and_then(|h| util::unhex(h)).and_then(|b| String::from_utf8(b).ok()) else {
+        return 2;
+    };
+    util::silence_panics();
+    let (answers, _keep) = hide_stdout();
+    let (class, text) = playground_once(&src);
+    let (o0, o1) = probe_offsets();
+    let mut w = answers;
+    writeln!(w, "class={class} end={o0}:{o1} out={}", util::hex(text.as_bytes())).unwrap();
+    0
+}
+
+/// `nvh cli expect <mode> <hex>`: what the library pipeline says the CLI prints (for replays).
+fn expect_cmd(args: &[String]) -> i32 {
+    let (Some(mode), Some(src)) =
+        (args.first(), args.get(1).and_then(|h| util::unhex(h)).and_then(|b| String::from_utf8(b).ok()))
+    else {
+        return 2;
+    };
+    util::silence_panics();
+    let (mut w, _keep) = hide_stdout();
+    let filename = match mode.as_str() {
+        "eval" => "<eval>".to_string(),
+        "stdin" => "<stdin>".to_string(),
+        other => other.to_string(),
+    };
+    match util::catch(|| library_run(&src, &filename)) {
+        Ok(e) => writeln!(w, "code={} class={} facts={} {} {} stdout={}", e.code, e.class, e.p, e.re, e.rt, util::hex(&e.stdout))
+            .unwrap(),
+        Err(m) => writeln!(w, "panic {m}").unwrap(),
+    }
+    0
+}
+
+/// `shout` prints to the real stdout: answers go to a duplicate of fd 1 and fd 1 is pointed at
+/// /dev/null for the rest of the process.
+fn hide_stdout() -> (std::fs::File, ()) {
+    // (the unit keeps call sites uniform: `let (w, _keep) = hide_stdout();`)
+    unsafe {
+        let a = libc::dup(1);
+        let null = libc::open(c"/dev/null".as_ptr(), libc::O_WRONLY);
+        libc::dup2(null, 1);
+        libc::close(null);
+        (std::fs::File::from_raw_fd(a), ())
+    }
+}
+
+// ------------------------------------------------------------------------------------------------
+// The real binary
+
+/// Where exactly the native-stack guard trips inside a recursion cycle depends on compiled frame sizes
+/// (the binary and the harness are compiled with different options; C08), so the *location* of a
+/// `Stack overflow` diagnostic is not comparable across builds: everything after its header line is cut.
+fn canon_stack_overflow(out: &[u8]) -> Vec<u8> {
+    let needle = b"Stack overflow";
+    if let Some(pos) = out.windows(needle.len()).position(|w| w == needle) {
+        let end = out[pos..].iter().position(|b| *b == b'\n').map_or(out.len(), |e| pos + e + 1);
+        return out[..end].to_vec();
+    }
+    out.to_vec()
+}
+
+fn clip(b: &[u8]) -> String {
+    let h = util::hex(b);
+    if h.len() > 1200 { format!("{}…({} bytes)", &h[..1200], b.len()) } else { h }
+}
+
+// ------------------------------------------------------------------------------------------------
+// Histories on the real S_SCRATCH
+
+struct Hist {
+    guards: Vec<(u64, ScratchArena<'static>, usize)>, // (variable, guard, S_SCRATCH index), oldest first
+    marks: Vec<(u64, usize)>,
+    p0: *const u8,
+}
+
+impl Hist {
+    fn new() -> Self {
+        Hist { guards: Vec::new(), marks: Vec::new(), p0: std::ptr::null() }
+    }
+
+    /// Drop every guard, newest first (always legal).
+    fn clear(&mut self) {
+        while let Some(g) = self.guards.pop() {
+            drop(g);
+        }
+        self.marks.clear();
+    }
+
+    fn find(&self, v: u64) -> Option<usize> {
+        self.guards.iter().position(|g| g.0 == v)
+    }
+
+    fn offs(&self) -> String {
+        let (a, b) = probe_offsets();
+        format!("off={a}:{b}")
+    }
+
+    fn step(&mut self, w: &[&str]) -> String {
+        match w {
+            ["H"] => {
+                self.clear();
+                arena::init(16 * MEBI).unwrap();
+                if self.p0.is_null() {
+                    // base address of S_SCRATCH[0]: a zero-sized block at offset 0
+                    let a = scratch_arena(None);
+                    self.p0 = (&*a).allocate(Layout::from_size_align(0, 1).unwrap()).unwrap().as_ptr() as *const u8;
+                    drop(a);
+                }
+                self.offs()
+            }
+            ["i"] => {
+                arena::init(16 * MEBI).unwrap();
+                self.offs()
+            }
+            ["o"] => self.offs(),
+            ["b", v, c] => {
+                let Ok(v) = v.parse::<u64>() else { return "bad-op".into() };
+                if self.find(v).is_some() {
+                    return "rebound".into();
+                }
+                if self.p0.is_null() {
+                    return "bad-op".into(); // a history starts with `H`
+                }
+                let g = if *c == "none" {
+                    scratch_arena(None)
+                } else {
+                    let Ok(cv) = c.parse::<u64>() else { return "bad-op".into() };
+                    let Some(i) = self.find(cv) else { return "unbound".into() };
+                    scratch_arena(Some(&*self.guards[i].1))
+                };
+                let ix = self.identify(&g);
+                // reading the offset goes through the newest guard: always legal right after the borrow
+                let saved = g.offset();
+                self.guards.push((v, g, ix));
+                format!("ix={ix} saved={saved}")
+            }
+            ["a", v, bytes, align] => {
+                let (Ok(v), Ok(bytes), Ok(align)) = (v.parse::<u64>(), bytes.parse::<usize>(), align.parse::<usize>())
+                else {
+                    return "bad-op".into();
+                };
+                let Some(i) = self.find(v) else { return "unbound".into() };
+                let g = &self.guards[i].1;
+                let r = util::catch(|| {
+                    let layout = Layout::from_size_align(bytes, align).unwrap();
+                    let _p = (&**g).allocate(layout).unwrap();
+                    g.offset()
+                });
+                match r {
+                    Ok(off) => format!("beg={} off={off}", off - bytes),
+                    Err(_) => "panic".into(),
+                }
+            }
+            ["m", v] => {
+                let Ok(v) = v.parse::<u64>() else { return "bad-op".into() };
+                let Some(i) = self.find(v) else { return "unbound".into() };
+                let g = &self.guards[i].1;
+                match util::catch(|| g.offset()) {
+                    Ok(off) => {
+                        self.marks.push((v, off));
+                        format!("mark={off}")
+                    }
+                    Err(_) => "panic".into(),
+                }
+            }
+            ["r", v, k] => {
+                let (Ok(v), Ok(k)) = (v.parse::<u64>(), k.parse::<usize>()) else { return "bad-op".into() };
+                let Some(i) = self.find(v) else { return "unbound".into() };
+                // the request language only allows offsets read through the same guard
+                let Some(&(mv, m)) = self.marks.get(k) else { return "badmark".into() };
+                if mv != v {
+                    return "badmark".into();
+                }
+                let g = &self.guards[i].1;
+                // ... and only resets down (an offset above `commit` would be outside the arena)
+                match util::catch(|| {
+                    if g.offset() < m {
+                        return None;
+                    }
+                    unsafe { g.reset(m) };
+                    Some(g.offset())
+                }) {
+                    Ok(Some(off)) => format!("off={off}"),
+                    Ok(None) => "badmark".into(),
+                    Err(_) => "panic".into(),
+                }
+            }
+            ["d", v] => {
+                let Ok(v) = v.parse::<u64>() else { return "bad-op".into() };
+                let Some(i) = self.find(v) else { return "unbound".into() };
+                // Dropping a guard that is not the newest of its arena panics inside `drop` and again in
+                // the field's `drop`: the process aborts.  Try it in a forked child first.
+                if !self.drop_survives(i) {
+                    return "abort".into();
+                }
+                let g = self.guards.remove(i);
+                drop(g);
+                self.marks.retain(|m| m.0 != v);
+                self.offs()
+            }
+            _ => "bad-op".into(),
+        }
+    }
+
+    /// Index of the scratch arena behind a guard.  `scratch_arena(None)` always delegates to
+    /// S_SCRATCH[0]; `p0` is an address inside that arena's reservation (its base, taken right after
+    /// `init`), and `contains_ptr` does not go through the borrow check.
+    fn identify(&self, g: &ScratchArena<'static>) -> usize {
+        if g.contains_ptr(self.p0) { 0 } else { 1 }
+    }
+
+    fn drop_survives(&mut self, i: usize) -> bool {
+        // Only guards that are not last in our list can be out of order; the newest overall is safe.
+        if i + 1 == self.guards.len() {
+            return true;
+        }
+        unsafe {
+            let pid = libc::fork();
+            if pid == 0 {
+                let null = libc::open(c"/dev/null".as_ptr(), libc::O_WRONLY);
+                libc::dup2(null, 2);
+                let g = self.guards.remove(i);
+                let _ = util::catch(move || drop(g));
+                libc::_exit(0);
+            }
+            let mut status = 0;
+            libc::waitpid(pid, &mut status, 0);
+            libc::WIFEXITED(status) && libc::WEXITSTATUS(status) == 0
+        }
+    }
+}
+
+// ------------------------------------------------------------------------------------------------
+// run
+
+/// Wall-clock limits for child processes.  They only matter when something does not terminate (the
+/// slowest program of the pool takes about 1.5 s in the debug binary); a time-out is reported as an
+/// oracle failure, never silently skipped.
+/// A child gets `BASE_TIMEOUT_S` plus 30 times what the reference needed (the library pipeline
+/// in-process for a CLI run; the programs alone for a sequence).  After `MAX_TIMEOUTS` time-outs the
+/// remaining children of the batch are not started (they are answered as timed out as well).
+const BASE_TIMEOUT_S: f64 = 10.0;
+const MAX_TIMEOUTS: usize = 4;
+static TIMEOUTS: AtomicUsize = AtomicUsize::new(0);
+
+struct ChildOut {
+    stdout: Vec<u8>,
+    stderr: Vec<u8>,
+    code: Option<i32>,
+    timed_out: bool,
+    limit_s: f64,
+    elapsed_s: f64,
+}
+
+fn run_child(mut cmd: Command, input: Option<Vec<u8>>, timeout_s: f64) -> ChildOut {
+    if TIMEOUTS.load(Ordering::SeqCst) >= MAX_TIMEOUTS {
+        return ChildOut { stdout: Vec::new(), stderr: Vec::new(), code: None, timed_out: true, limit_s: 0.0, elapsed_s: 0.0 };
+    }
+    let t0 = std::time::Instant::now();
+    cmd.stdout(Stdio::piped()).stderr(Stdio::piped());
+    cmd.stdin(if input.is_some() { Stdio::piped() } else { Stdio::null() });
+    let mut child = cmd.spawn().expect("spawn child");
+    let pid = child.id();
+    if let Some(inp) = input {
+        let mut si = child.stdin.take().unwrap();
+        let _ = si.write_all(&inp);
+        drop(si);
+    }
+    let (tx, rx) = std::sync::mpsc::channel();
+    std::thread::spawn(move || {
+        let _ = tx.send(child.wait_with_output());
+    });
+    let (out, timed_out) = match rx.recv_timeout(std::time::Duration::from_secs_f64(timeout_s)) {
+        Ok(o) => (o, false),
+        Err(_) => {
+            TIMEOUTS.fetch_add(1, Ordering::SeqCst);
+            unsafe { libc::kill(pid as i32, libc::SIGKILL) };
+            (rx.recv().unwrap(), true)
+        }
+    };
+    let out = out.expect("wait child");
+    ChildOut {
+        stdout: out.stdout,
+        stderr: out.stderr,
+        code: out.status.code(),
+        timed_out,
+        limit_s: timeout_s,
+        elapsed_s: t0.elapsed().as_secs_f64(),
+    }
+}
+
+fn run_binary(naija: &str, mode: &str, src: &str, file_path: &str, timeout_s: f64) -> ChildOut {
+    let mut cmd = Command::new(naija);
+    let mut input = None;
+    match mode {
+        "file" => {
+            std::fs::write(file_path, src).unwrap();
+            cmd.arg(file_path);
+        }
+        "eval" => {
+            cmd.arg(format!("--eval={src}"));
+        }
+        _ => {
+            cmd.arg("-");
+            input = Some(src.as_bytes().to_vec());
+        }
+    }
+    run_child(cmd, input, timeout_s)
+}
+
+/// `nvh cli seqrun <hex1>|<hex2>|…`: the playground replica on the sequence, twice, in this one
+/// process; one line per run.
+fn seqrun(args: &[String]) -> i32 {
+    let Some(progs) = args.first() else { return 2 };
+    util::silence_panics();
+    let (mut w, _keep) = hide_stdout();
+    for _pass in 0..2 {
+        for h in progs.split('|') {
+            let Some(src) = util::unhex(h).and_then(|b| String::from_utf8(b).ok()) else {
+                writeln!(w, "bad").unwrap();
+                continue;
+            };
+            let (class, text) = playground_once(&src);
+            let (o0, o1) = probe_offsets();
+            writeln!(w, "class={class} end={o0}:{o1} out={}", util::hex(text.as_bytes())).unwrap();
+            w.flush().unwrap();
+        }
+    }
+    0
+}
+
+/// Panic messages may carry addresses: for a panicking run only the class and the offsets are compared.
+fn canon_run_line(l: &str) -> String {
+    if l.starts_with("class=panic ") { l.split(" out=").next().unwrap().to_string() } else { l.to_string() }
+}
+
+fn run(args: &[String]) -> i32 {
+    let naija = util::opt(args, "--naija").unwrap_or("").to_string();
+    let tmpdir = util::opt(args, "--tmp").map(str::to_string).unwrap_or_else(|| {
+        let d = std::env::temp_dir().join(format!("nvh-cli-{}", std::process::id()));
+        d.to_string_lossy().into_owned()
+    });
+    std::fs::create_dir_all(&tmpdir).ok();
+    let jobs = util::opt_u64(args, "--jobs", 8) as usize;
+    if std::env::var_os("NVH_PANICS").is_none() {
+        util::silence_panics();
+    }
+    let lines = util::stdin_lines();
+    let (mut w, _keep) = hide_stdout();
+    let me = std::env::current_exe().unwrap();
+
+    // 1. every run of the real binary and every alone-run of the playground replica, then every
+    //    sequence (each in ONE child process of its own), in a small pool
+    struct Job {
+        line: usize,
+        mode: String,
+        src: String,
+        path: String,
+    }
+    let mut jobs_cli: Vec<Job> = Vec::new();
+    let mut alone_srcs: Vec<String> = Vec::new();
+    let mut alone_ix: HashMap<String, usize> = HashMap::new();
+    let mut seq_lines: Vec<usize> = Vec::new();
+    for (i, l) in lines.iter().enumerate() {
+        let ws: Vec<&str> = l.split_whitespace().collect();
+        match ws.as_slice() {
+            ["cli", mode, _, _, _, hexsrc] => {
+                if let Some(src) = util::unhex(hexsrc).and_then(|b| String::from_utf8(b).ok()) {
+                    jobs_cli.push(Job { line: i, mode: mode.to_string(), src, path: format!("{tmpdir}/case_{i}.ns") });
+                }
+            }
+            ["seq", progs] => {
+                seq_lines.push(i);
+                for h in progs.split('|') {
+                    if !alone_ix.contains_key(h) {
+                        alone_ix.insert(h.to_string(), alone_srcs.len());
+                        alone_srcs.push(h.to_string());
+                    }
+                }
+            }
+            _ => {}
+        }
+    }
+    if !jobs_cli.is_empty() && naija.is_empty() {
+        eprintln!("nvh cli run: --naija <path to the naija binary> is required for `cli` requests");
+        return 2;
+    }
+    // 0. the reference: the library pipeline on separate arenas, in-process, for every `cli` request
+    let filename_of = |j: &Job| match j.mode.as_str() {
+        "file" => j.path.clone(),
+        "eval" => "<eval>".to_string(),
+        _ => "<stdin>".to_string(),
+    };
+    let mut lib_cache: HashMap<(String, String), (Result<Expected, String>, f64)> = HashMap::new();
+    let mut lib_by_line: HashMap<usize, (Result<Expected, String>, f64)> = HashMap::new();
+    for j in &jobs_cli {
+        let t0 = std::time::Instant::now();
+        let r = util::catch(|| library_run(&j.src, &filename_of(j)));
+        lib_by_line.insert(j.line, (r, t0.elapsed().as_secs_f64()));
+    }
+    let _ = &mut lib_cache;
+    let cli_limits: Vec<f64> = jobs_cli.iter().map(|j| BASE_TIMEOUT_S + 30.0 * lib_by_line[&j.line].1).collect();
+    fn pool<T: Send>(jobs: usize, total: usize, f: impl Fn(usize) -> T + Sync) -> Vec<T> {
+        let results: Vec<Mutex<Option<T>>> = (0..total).map(|_| Mutex::new(None)).collect();
+        let next = AtomicUsize::new(0);
+        std::thread::scope(|s| {
+            for _ in 0..jobs.max(1) {
+                s.spawn(|| {
+                    loop {
+                        let k = next.fetch_add(1, Ordering::SeqCst);
+                        if k >= total {
+                            break;
+                        }
+                        *results[k].lock().unwrap() = Some(f(k));
+                    }
+                });
+            }
+        });
+        results.into_iter().map(|m| m.into_inner().unwrap().unwrap()).collect()
+    }
+    let n_cli = jobs_cli.len();
+    let phase1 = pool(jobs, n_cli + alone_srcs.len(), |k| {
+        if k < n_cli {
+            let j = &jobs_cli[k];
+            let out = run_binary(&naija, &j.mode, &j.src, &j.path, cli_limits[k]);
+            if j.mode == "file" {
+                let _ = std::fs::remove_file(&j.path);
+            }
+            out
+        } else {
+            let mut cmd = Command::new(&me);
+            cmd.args(["cli", "alone", &alone_srcs[k - n_cli]]);
+            run_child(cmd, None, 6.0 * BASE_TIMEOUT_S)
+        }
+    });
+    TIMEOUTS.store(0, Ordering::SeqCst);
+    let _ = std::fs::remove_dir(&tmpdir);
+    let mut phase1 = phase1.into_iter();
+    let mut cli_by_line: HashMap<usize, ChildOut> = HashMap::new();
+    for j in &jobs_cli {
+        cli_by_line.insert(j.line, phase1.next().unwrap());
+    }
+    // alone results: Some(line) when the fresh process finished normally
+    let mut alone_secs: Vec<f64> = Vec::new();
+    let alone_results: Vec<Option<String>> = phase1
+        .map(|o| {
+            alone_secs.push(o.elapsed_s);
+            let text = String::from_utf8_lossy(&o.stdout).trim().to_string();
+            if o.code == Some(0) && !o.timed_out && !text.is_empty() { Some(text) } else { None }
+        })
+        .collect();
+    // sequences without the programs that kill (or hang) a fresh process as well
+    let seq_inputs: Vec<Vec<&str>> = seq_lines
+        .iter()
+        .map(|i| {
+            lines[*i].split_whitespace().nth(1).unwrap().split('|').filter(|h| alone_results[alone_ix[*h]].is_some()).collect()
+        })
+        .collect();
+    let seq_outs = pool(jobs, seq_lines.len(), |k| {
+        if seq_inputs[k].is_empty() {
+            return ChildOut { stdout: Vec::new(), stderr: Vec::new(), code: Some(0), timed_out: false, limit_s: 0.0, elapsed_s: 0.0 };
+        }
+        let mut cmd = Command::new(&me);
+        cmd.args(["cli", "seqrun", &seq_inputs[k].join("|")]);
+        let alone_total: f64 = seq_inputs[k].iter().map(|h| alone_secs[alone_ix[*h]]).sum();
+        run_child(cmd, None, BASE_TIMEOUT_S + 30.0 * 2.0 * alone_total)
+    });
+    let mut seq_by_line: HashMap<usize, (Vec<&str>, ChildOut)> = HashMap::new();
+    for ((i, inp), out) in seq_lines.iter().zip(seq_inputs.iter()).zip(seq_outs) {
+        seq_by_line.insert(*i, (inp.clone(), out));
+    }
+
+    // 2. answers, sequentially on the main thread (the in-process pipelines need its big stack)
+    let mut hist = Hist::new();
+    let mut assertion_seen = false;
+    let mut replica_assertion = false;
+    let mut stats: HashMap<String, u64> = HashMap::new();
+    fn bump_in(stats: &mut HashMap<String, u64>, k: &str) {
+        *stats.entry(k.to_string()).or_insert(0) += 1;
+    }
+    for (i, l) in lines.iter().enumerate() {
+        let ws: Vec<&str> = l.split_whitespace().collect();
+        let ln = i + 1;
+        let ans: String = match ws.as_slice() {
+            ["cli", mode, p, re, rt, hexsrc] => {
+                hist.clear();
+                let Some(real) = cli_by_line.remove(&i) else {
+                    writeln!(w, "bad-op").unwrap();
+                    continue;
+                };
+                let src = String::from_utf8(util::unhex(hexsrc).unwrap()).unwrap();
+                let filename = match *mode {
+                    "file" => format!("{tmpdir}/case_{i}.ns"),
+                    "eval" => "<eval>".to_string(),
+                    _ => "<stdin>".to_string(),
+                };
+                let stderr_txt = String::from_utf8_lossy(&real.stderr).to_string();
+                if stderr_txt.contains("already borrowed by a newer ScratchArena") {
+                    assertion_seen = true;
+                }
+                let real_panicked = real.code == Some(101) && stderr_txt.contains("panicked");
+                let (lib, lib_secs) = lib_by_line.remove(&i).unwrap();
+                if real.timed_out {
+                    eprintln!(
+                        "ORACLE-FAIL {ln} `naija` ({mode}) did not finish within {:.0} s (the library pipeline needs {:.3} s){}",
+                        real.limit_s,
+                        lib_secs,
+                        if real.limit_s == 0.0 { "; not started: too many time-outs before it" } else { "" }
+                    );
+                }
+                let _ = (&src, &filename);
+                match lib {
+                    Ok(e) => {
+                        bump_in(&mut stats, &format!("cli_{}_{}", mode, e.class));
+                        let facts = format!("{} {} {}", e.p, e.re, e.rt);
+                        if facts != format!("{p} {re} {rt}") {
+                            eprintln!("ORACLE-FAIL {ln} facts in the request ({p} {re} {rt}) are not what the library pipeline computes now ({facts})");
+                        }
+                        if real.timed_out {
+                        } else if canon_stack_overflow(&real.stdout) != canon_stack_overflow(&e.stdout) {
+                            eprintln!(
+                                "ORACLE-FAIL {ln} stdout of `naija` ({mode}) differs from the library pipeline: cli={} lib={}",
+                                clip(&real.stdout),
+                                clip(&e.stdout)
+                            );
+                        }
+                        if real.timed_out {
+                        } else if real.code != Some(e.code) {
+                            eprintln!(
+                                "ORACLE-FAIL {ln} exit status of `naija` ({mode}) is {:?}, the library pipeline's diagnostics ({}) ask for {}; stderr={}",
+                                real.code,
+                                e.class,
+                                e.code,
+                                clip(&real.stderr)
+                            );
+                        } else if !real.stderr.is_empty() {
+                            eprintln!("ORACLE-FAIL {ln} `naija` ({mode}) wrote to stderr: {}", clip(&real.stderr));
+                        }
+                    }
+                    Err(msg) => {
+                        bump_in(&mut stats, "cli_library_panic");
+                        if !real_panicked {
+                            eprintln!(
+                                "ORACLE-FAIL {ln} the library pipeline panicked ({msg}) but `naija` ({mode}) exited with {:?}",
+                                real.code
+                            );
+                        }
+                    }
+                }
+                if real.timed_out {
+                    "code=timeout".to_string()
+                } else if real_panicked {
+                    "code=panic".to_string()
+                } else {
+                    match real.code {
+                        Some(c) => format!("code={c}"),
+                        None => "code=signal".to_string(),
+                    }
+                }
+            }
+            ["seq", progs] => {
+                let hs: Vec<&str> = progs.split('|').collect();
+                let (inp, out) = seq_by_line.remove(&i).unwrap();
+                let got: Vec<String> = String::from_utf8_lossy(&out.stdout).lines().map(str::to_string).collect();
+                let mut ends: Vec<String> = Vec::new();
+                if out.timed_out || out.code != Some(0) || got.len() != 2 * inp.len() {
+                    eprintln!(
+                        "ORACLE-FAIL {ln} the sequence did not finish in one process ({}; {} of {} runs answered) although each of its programs finishes alone in a fresh process",
+                        if out.timed_out { format!("no end within {:.0} s", out.limit_s) } else { format!("exit {:?}", out.code) },
+                        got.len(),
+                        2 * inp.len()
+                    );
+                    format!("n={} end=died", 2 * hs.len())
+                } else {
+                    let mut k = 0;
+                    let mut last = "0:0".to_string();
+                    for pass in 0..2 {
+                        for (pos, h) in hs.iter().enumerate() {
+                            let Some(alone_line) = &alone_results[alone_ix[*h]] else {
+                                // kills or hangs a fresh process too (abort, arena exhaustion): left out
+                                bump_in(&mut stats, "seq_skipped_alone_died");
+                                ends.push(last.clone());
+                                continue;
+                            };
+                            let here = &got[k];
+                            k += 1;
+                            let class = here.split(' ').next().unwrap_or("").trim_start_matches("class=").to_string();
+                            bump_in(&mut stats, &format!("seq_{class}"));
+                            if class == "panic" && String::from_utf8_lossy(&util::unhex(here.rsplit("out=").next().unwrap_or("-")).unwrap_or_default()).contains("newer ScratchArena") {
+                                replica_assertion = true;
+                            }
+                            if canon_run_line(here) != canon_run_line(alone_line) {
+                                eprintln!(
+                                    "ORACLE-FAIL {ln} program #{} of the sequence (pass {}) differs from the same program alone in a fresh process: here={} alone={}",
+                                    pos + 1,
+                                    pass + 1,
+                                    clip_text(&canon_run_line(here)),
+                                    clip_text(&canon_run_line(alone_line))
+                                );
+                            }
+                            last = here.split(' ').nth(1).unwrap_or("end=?").trim_start_matches("end=").to_string();
+                            ends.push(last.clone());
+                        }
+                    }
+                    format!("n={} end={}", ends.len(), ends.join(","))
+                }
+            }
+            ["proto", name] => {
+                // observed fact: the debug borrow-order assertion has not fired in any run of the real binary
+                // (`cli`) / of the replica (`wasm`) answered so far
+                match *name {
+                    "cli" => (if assertion_seen { "unsafe" } else { "safe" }).to_string(),
+                    "wasm" => (if replica_assertion { "unsafe" } else { "safe" }).to_string(),
+                    _ => "bad-op".to_string(),
+                }
+            }
+            ["exit", _, _, _] => "driver-only".to_string(),
+            other => hist.step(other),
+        };
+        writeln!(w, "{ans}").unwrap();
+    }
+    hist.clear();
+    let mut keys: Vec<_> = stats.into_iter().collect();
+    keys.sort();
+    eprintln!("STAT {}", keys.iter().map(|(k, v)| format!("{k}={v}")).collect::<Vec<_>>().join(" "));
+    0
+}
+
+fn clip_text(s: &str) -> String {
+    if s.len() > 1500 { format!("{}…({} chars)", &s[..1500], s.len()) } else { s.to_string() }
+}
+
+// ------------------------------------------------------------------------------------------------
+// gen
+
+fn repo_dir() -> String {
+    std::env::var("NV_REPO").unwrap_or_else(|_| "/repo".to_string())
+}
+
+fn file_programs() -> Vec<(String, String)> {
+    let mut v = Vec::new();
+    for sub in ["examples", "tests/stress"] {
+        let dir = format!("{}/{}", repo_dir(), sub);
+        let mut names: Vec<_> = match std::fs::read_dir(&dir) {
+            Ok(rd) => rd.filter_map(|e| e.ok()).map(|e| e.path()).filter(|p| p.extension().is_some_and(|x| x == "ns")).collect(),
+            Err(_) => Vec::new(),
+        };
+        names.sort();
+        for p in names {
+            if let Ok(s) = std::fs::read_to_string(&p) {
+                if s.contains("read_line") || s.contains("command(") {
+                    continue;
+                }
+                v.push((p.file_name().unwrap().to_string_lossy().into_owned(), s));
+            }
+        }
+    }
+    v
+}
+
+/// Small template programs: loops and calls (frame resets), strings stored in variables (pool),
+/// arrays, warnings, static errors, syntax errors, runtime errors after some output, unbounded
+/// recursion (stack-overflow diagnostic; nothing printed inside the recursion because the depth at
+/// which the guard trips depends on compiled frame sizes).
+fn template(rng: &mut Rng) -> (&'static str, String) {
+    let n = 2 + rng.below(9);
+    let m = 1 + rng.below(6);
+    let word = *rng.pick(&["ab", "naija", "wörld", "日本", "x", "hello there", "😆ok"]);
+    let word2 = *rng.pick(&["cd", "!", "ß", "--", "zz top"]);
+    match rng.below(16) {
+        0 => ("loop_sum", format!(
+            "make s get 0\nmake i get 0\njasi (i small pass {n}) start\n  s get s add i times {m}\n  i get i add 1\nend\nshout(s)\n")),
+        1 => ("loop_concat", format!(
+            "make s get \"\"\nmake i get 0\njasi (i small pass {n}) start\n  s get s add \"{word}\"\n  shout(s)\n  i get i add 1\nend\nshout(s.len())\n")),
+        2 => ("recursion", format!(
+            "do fib(k) start\n  if to say (k small pass 2) start\n    return k\n  end\n  return fib(k minus 1) add fib(k minus 2)\nend\nshout(fib({}))\n", 5 + n)),
+        3 => ("fn_string", format!(
+            "do greet(name) start\n  return \"{word} \" add name add \"{word2}\"\nend\nmake i get 0\njasi (i small pass {n}) start\n  shout(greet(\"{word2}\"))\n  i get i add 1\nend\n")),
+        4 => ("array_push", format!(
+            "make a get []\nmake i get 0\njasi (i small pass {n}) start\n  a.push(\"{word}\" add \"{word2}\")\n  a.push(i)\n  i get i add 1\nend\nshout(a)\nshout(a.len())\n")),
+        5 => ("interp", format!(
+            "make name get \"{word}\"\nmake i get 0\njasi (i small pass {m}) start\n  name get name add \"{word2}\"\n  shout(\"hi {{name}} !\")\n  i get i add 1\nend\n")),
+        6 => ("warn_unused", format!("make unused get {n}\nshout(\"{word}\")\nmake y get {m}\nshout(y)\n")),
+        7 => ("static_undeclared", format!("make x get {n}\nshout(x)\nshout(nobody)\n")),
+        8 => ("static_type", format!("make x get \"{word}\"\nshout(x minus {n})\n")),
+        9 => ("syntax", format!("make x get {n}\nshout(x\nmake get {m}\n")),
+        10 => ("rt_div0", format!(
+            "make i get 0\njasi (i small pass {n}) start\n  shout(\"{word}\" add \"{word2}\")\n  i get i add 1\nend\nmake z get {m} minus {m}\nshout({n} divide z)\nshout(\"never\")\n")),
+        11 => ("rt_index", format!(
+            "make a get [1, 2, 3]\nshout(a[{}])\nshout(a[{}])\nshout(\"never\")\n", rng.below(3), 3 + n)),
+        12 => ("rt_stack", format!(
+            "shout(\"{word}\")\ndo down(k) start\n  return down(k add 1)\nend\nshout(down(0))\n")),
+        13 => ("nested_loops", format!(
+            "make t get \"\"\nmake i get 0\njasi (i small pass {m}) start\n  make j get 0\n  jasi (j small pass {m}) start\n    t get t add \"{word2}\"\n    j get j add 1\n  end\n  shout(t)\n  i get i add 1\nend\n")),
+        14 => ("methods", format!(
+            "make s get \"{word} {word2} {word}\"\nshout(s.to_uppercase())\nshout(s.replace(\"{word}\", \"{word2}\"))\nshout(s.split(\" \"))\nshout(s.slice(0, {m}))\nshout(s.find(\"{word2}\"))\n")),
+        _ => ("reassign_call", format!(
+            "make x get \"{word}\" add \"{word2}\"\ndo f() start\n  x get \"{word2}\" add \"{word}\"\n  return \"!\"\nend\nshout(x add f())\nshout(x)\n")),
+    }
+}
+
+fn generate(args: &[String]) -> i32 {
+    let seed = util::opt_u64(args, "--seed", 1);
+    let n = util::opt_u64(args, "--n", 150);
+    let nseq = util::opt_u64(args, "--seqs", 50);
+    let nhist = util::opt_u64(args, "--hists", 200);
+    let skip_files = util::flag(args, "--no-files");
+    util::silence_panics();
+    let (w, _keep) = hide_stdout();
+    let mut w = std::io::BufWriter::new(w);
+    let mut rng = Rng::new(seed ^ 0xC14);
+    // the program pool: (label, source, facts)
+    let mut pool: Vec<(String, String, Option<(usize, usize, usize, &'static str)>)> = Vec::new();
+    if !skip_files {
+        for (name, src) in file_programs() {
+            let f = facts_of(&src);
+            pool.push((name, src, f));
+        }
+    }
+    while (pool.len() as u64) < n {
+        let (label, src) = template(&mut rng);
+        let f = facts_of(&src);
+        pool.push((label.to_string(), src, f));
+    }
+    let mut dist: HashMap<String, u64> = HashMap::new();
+    for (label, src, f) in pool.iter().take(n as usize) {
+        let facts = match f {
+            Some((p, re, rt, class)) => {
+                *dist.entry(format!("{class}")).or_insert(0) += 1;
+                format!("{p} {re} {rt}")
+            }
+            None => {
+                *dist.entry("library_panic".into()).or_insert(0) += 1;
+                "x x x".to_string()
+            }
+        };
+        let _ = label;
+        for mode in ["file", "eval", "stdin"] {
+            writeln!(w, "cli {mode} {facts} {}", util::hex(src.as_bytes())).unwrap();
+        }
+    }
+    writeln!(w, "proto cli").unwrap();
+    // sequences: 2-6 programs, each sequence forced to contain a failing and a loop-heavy program when possible
+    let by_class = |c: &str| -> Vec<usize> {
+        pool.iter().enumerate().filter(|(_, p)| p.2.is_some_and(|f| f.3 == c)).map(|(i, _)| i).collect()
+    };
+    let oks = by_class("ok");
+    let fails: Vec<usize> = ["parse", "static", "rt"].iter().flat_map(|c| by_class(c)).collect();
+    for _ in 0..nseq {
+        let len = 2 + rng.below(5) as usize;
+        let mut ixs: Vec<usize> = Vec::new();
+        for k in 0..len {
+            let from_fail = !fails.is_empty() && (k == 1 || rng.chance(1, 3));
+            let i = if from_fail || oks.is_empty() { *rng.pick(&fails) } else { *rng.pick(&oks) };
+            ixs.push(i);
+        }
+        if rng.chance(1, 4) {
+            let d = ixs[0];
+            ixs.push(d); // the same program again later in the sequence
+        }
+        let hs: Vec<String> = ixs.iter().map(|i| util::hex(pool[*i].1.as_bytes())).collect();
+        writeln!(w, "seq {}", hs.join("|")).unwrap();
+    }
+    writeln!(w, "proto wasm").unwrap();
+    // histories on S_SCRATCH
+    for _ in 0..nhist {
+        gen_history(&mut rng, &mut w);
+    }
+    writeln!(w, "H").unwrap();
+    w.flush().unwrap();
+    let mut keys: Vec<_> = dist.into_iter().collect();
+    keys.sort();
+    eprintln!("GEN-STAT programs={} {}", pool.len().min(n as usize), keys.iter().map(|(k, v)| format!("{k}={v}")).collect::<Vec<_>>().join(" "));
+    0
+}
+
+/// A history: mostly legal (the newest guard of an arena is used, guards dropped newest first), with
+/// stale uses (answer `panic`), out-of-order drops (answer `abort`, tried in a forked child), resets to
+/// offsets read through another guard (`badmark`) and unknown variables mixed in.  Ends with every
+/// guard dropped.
+fn gen_history(rng: &mut Rng, w: &mut impl Write) {
+    writeln!(w, "H").unwrap();
+    // shadow of the model state, only to bias the choices: live guards oldest first with their arena,
+    // and the variable of every recorded offset
+    let mut live: Vec<(u64, usize)> = Vec::new();
+    let mut marks: Vec<u64> = Vec::new();
+    let len = 6 + rng.below(40);
+    let sizes: &[u64] = &[0, 1, 7, 8, 24, 100, 4096, 65535, 65536, 65537, 200000];
+    let aligns: &[u64] = &[1, 2, 4, 8, 16];
+    fn is_top(live: &[(u64, usize)], pos: usize) -> bool {
+        !live[pos + 1..].iter().any(|x| x.1 == live[pos].1)
+    }
+    fn tops(live: &[(u64, usize)]) -> Vec<usize> {
+        (0..live.len()).filter(|p| is_top(live, *p)).collect()
+    }
+    for _ in 0..len {
+        let r = rng.below(100);
+        if (r < 18 || (live.is_empty() && r < 85)) && live.len() < 6 {
+            let v = (0..8u64).find(|v| !live.iter().any(|g| g.0 == *v)).unwrap();
+            let (c, ix) = if live.is_empty() || rng.chance(1, 4) {
+                ("none".to_string(), 0)
+            } else {
+                let g = *rng.pick(&live);
+                (g.0.to_string(), if g.1 == 0 { 1 } else { 0 })
+            };
+            writeln!(w, "b {v} {c}").unwrap();
+            live.push((v, ix));
+        } else if r < 50 && !live.is_empty() {
+            let pos = if rng.chance(6, 7) { *rng.pick(&tops(&live)) } else { rng.below(live.len() as u64) as usize };
+            writeln!(w, "a {} {} {}", live[pos].0, rng.pick(sizes), rng.pick(aligns)).unwrap();
+        } else if r < 62 && !live.is_empty() {
+            let pos = if rng.chance(6, 7) { *rng.pick(&tops(&live)) } else { rng.below(live.len() as u64) as usize };
+            writeln!(w, "m {}", live[pos].0).unwrap();
+            if is_top(&live, pos) {
+                marks.push(live[pos].0);
+            }
+        } else if r < 78 && !marks.is_empty() {
+            let valid: Vec<usize> = (0..marks.len())
+                .filter(|k| live.iter().position(|g| g.0 == marks[*k]).is_some_and(|p| is_top(&live, p)))
+                .collect();
+            if !valid.is_empty() && rng.chance(5, 6) {
+                let k = *rng.pick(&valid);
+                writeln!(w, "r {} {k}", marks[k]).unwrap();
+            } else if !live.is_empty() {
+                writeln!(w, "r {} {}", rng.pick(&live).0, rng.below(marks.len() as u64 + 1)).unwrap();
+            }
+        } else if r < 91 && !live.is_empty() {
+            let pos = if rng.chance(3, 4) { *rng.pick(&tops(&live)) } else { rng.below(live.len() as u64) as usize };
+            let v = live[pos].0;
+            writeln!(w, "d {v}").unwrap();
+            if is_top(&live, pos) {
+                live.remove(pos);
+                marks.retain(|m| *m != v);
+            }
+        } else if r < 94 && (0..2).all(|ix| live.iter().filter(|g| g.1 == ix).count() <= 1) {
+            // `arena::init`, also under a live guard (not something the entry points do, but the only way
+            // to see that `init` resets the offsets: at rest they are 0 already).  Only while no arena
+            // carries two guards, so that every live guard was taken at offset 0: with a guard whose
+            // saved offset is higher, its drop would raise the offset above `commit`, which is outside
+            // the arena's own invariant (the debug fill of the next reset underflows) and outside this model.
+            writeln!(w, "i").unwrap();
+        } else if r < 96 {
+            writeln!(w, "a {} 8 8", 9 + rng.below(3)).unwrap(); // unknown variable
+        } else {
+            writeln!(w, "o").unwrap();
+        }
+    }
+    // drop what is left, newest first (always legal)
+    while let Some((v, _)) = live.pop() {
+        writeln!(w, "d {v}").unwrap();
+    }
+    writeln!(w, "o").unwrap();
+}
